@@ -5,12 +5,14 @@ export GOFLAGS=-mod=mod GOPROXY=off GOSUMDB=off GOTOOLCHAIN=local GOWORK=off
 repo=$1; pkg=$2; wit=$(readlink -f $3); shift 3
 ov=$(mktemp --suffix=.json)
 extra=""
-if [ "$pkg" = "internal/storage/ledgerstore" ]; then
+if [ "$pkg" = "internal/storage/ledgerstore" ] || [ "$pkg" = "libs/bun/bunpaginate" ] || [ -n "${BLANK_TESTS:-}" ]; then
   # its TestMain needs Docker/PostgreSQL: blank every existing test file
   for f in $repo/$pkg/*_test.go; do extra="$extra \"$f\": \"\","; done
 fi
+mod=$repo; rel=$pkg
+case "$pkg" in libs/*) mod=$repo/libs; rel=${pkg#libs/};; esac
 echo "{\"Replace\": {$extra \"$repo/$pkg/zz_witness_test.go\": \"$wit\"}}" > $ov
-(cd $repo && go test -vet=off -count=1 -overlay $ov "$@" ./$pkg/)
+(cd $mod && go test -vet=off -count=1 -overlay $ov "$@" ./$rel/)
 rc=$?
 rm -f $ov
 exit $rc
